@@ -358,6 +358,12 @@ static void cmd_dump(const char *tag)
     fsg_to_sb(&b, fs->fsg, "S", &links, &nl);
     fputs(b.p, stdout);
     free(b.p);
+    /* SD <i> <0|1>: word i of the search FSG is a filler word BY THE DICTIONARY (dict_filler_word), whatever the
+     * grammar's own filler marks (flag of the SW lines = fsg_model_is_filler) say */
+    for (i = 0; i < fsg_model_n_word(fs->fsg); i++) {
+        int32 dw = dict_wordid(dec->dict, fsg_model_word_str(fs->fsg, i));
+        printf("SD %d %d\n", i, dw != BAD_S3WID && dict_filler_word(dec->dict, dw) ? 1 : 0);
+    }
     n = fsg_history_n_entries(fs->history);
     for (i = 0; i < n; i++) {
         fsg_hist_entry_t *e = fsg_history_entry_get(fs->history, i);
